@@ -21,6 +21,7 @@ type Driver struct {
 	downP   map[string]int // provider key -> remaining absent blocks
 	downC   map[string]map[string]int
 	sinceUpd map[string]int64
+	expired  map[string]bool
 }
 
 func (d *Driver) pick(xs []string) string { return xs[d.R.Intn(len(xs))] }
@@ -43,6 +44,7 @@ func RandomConfig(r *rand.Rand, profile string) Config {
 	cfg.ReplenishPer = []int64{1800, 3600}[r.Intn(2)]
 	cfg.ReplenishFrac = []string{"0.10", "0.34", "0.05", "1.0"}[r.Intn(4)]
 	cfg.DowntimeJail = 600
+	cfg.CCVTimeout = 3 * 3600
 	cfg.EpochsToReward = int64(r.Intn(3))
 	return cfg
 }
@@ -53,7 +55,7 @@ func NewDriver(t testing.TB, seed int64, profile string) *Driver {
 	w := NewWorld(t, cfg)
 	d := &Driver{W: w, R: r, Seed: seed, Profile: profile, nextVal: cfg.NumVals + 1,
 		started: map[string]bool{}, linked: map[string]bool{}, downP: map[string]int{}, downC: map[string]map[string]int{},
-		sinceUpd: map[string]int64{}}
+		sinceUpd: map[string]int64{}, expired: map[string]bool{}}
 	return d
 }
 
@@ -130,7 +132,7 @@ func (d *Driver) providerTxs() []map[string]any {
 	for i := 0; i < n; i++ {
 		var a map[string]any
 		signer := ""
-		switch k := d.R.Intn(20); {
+		switch k := d.R.Intn(28); {
 		case k < 4:
 			signer = "del"
 			a = map[string]any{"a": "Delegate", "v": d.pick(vals), "amt": []int64{1, 100000, 500000, 999999, 1000000, 2000000}[d.R.Intn(6)]}
@@ -213,16 +215,105 @@ func (d *Driver) providerTxs() []map[string]any {
 				keys = append(keys, fmt.Sprintf("pk%d", i))
 			}
 			a = map[string]any{"a": "AssignKey", "v": v, "c": d.pick(cons), "key": d.pick(keys)}
-		default:
+		case k < 20:
 			if len(cons) == 0 {
 				continue
 			}
 			c := d.pick(cons)
 			signer = d.owner(c)
-			if signer == "gov" || len(signer) > 3 || d.phase(c) != "launched" || !d.chance(0.15) {
+			if signer == "gov" || len(signer) > 3 || d.phase(c) != "launched" || !d.chance(0.5) {
 				continue
 			}
 			a = map[string]any{"a": "RemoveConsumer", "sender": signer, "c": c}
+		case k < 22:
+			// infraction parameter request (partial, repeated, cancelling)
+			if len(cons) == 0 {
+				continue
+			}
+			c := d.pick(cons)
+			signer = d.owner(c)
+			if signer == "gov" || len(signer) > 3 {
+				continue
+			}
+			inf := map[string]any{}
+			if d.chance(0.6) {
+				inf["dt"] = map[string]any{"frac": d.pick([]string{"0.000000000000000000", "0.010000000000000000", "0.100000000000000000"}), "jail": []int64{600, 1200, 7200}[d.R.Intn(3)], "tomb": false}
+			}
+			if d.chance(0.5) {
+				inf["ds"] = map[string]any{"frac": d.pick([]string{"0.050000000000000000", "0.100000000000000000", "0.500000000000000000"}), "jail": []int64{2000000000, 86400}[d.R.Intn(2)], "tomb": d.chance(0.7)}
+			}
+			if len(inf) == 0 {
+				continue
+			}
+			a = map[string]any{"a": "UpdateConsumer", "sender": signer, "c": c, "infr": inf}
+		case k < 23:
+			if len(cons) == 0 {
+				continue
+			}
+			v := d.pick(vals)
+			signer = "op:" + v
+			a = map[string]any{"a": "SetCommission", "v": v, "c": d.pick(cons), "rate": d.pick([]string{"0.000000000000000000", "0.100000000000000000", "0.500000000000000000", "1.000000000000000000"})}
+		case k < 25:
+			// unauthorized attempts: a validator message signed by another operator, or an owner message from a non-owner
+			if len(cons) == 0 {
+				continue
+			}
+			c := d.pick(cons)
+			if d.chance(0.5) {
+				v := d.pick(vals)
+				other := d.pick(vals)
+				if other == v {
+					continue
+				}
+				signer = "op:" + other
+				kind := d.pick([]string{"OptIn", "OptOut", "AssignKey", "SetCommission"})
+				a = map[string]any{"a": kind, "v": v, "c": c, "signer": "op" + other[1:], "key": "k1", "rate": "0.100000000000000000"}
+			} else {
+				signer = d.pick([]string{"o1", "o2", "u1"})
+				if signer == d.owner(c) {
+					continue
+				}
+				if d.chance(0.5) {
+					a = map[string]any{"a": "UpdateConsumer", "sender": signer, "c": c, "newOwner": signer}
+				} else {
+					a = map[string]any{"a": "RemoveConsumer", "sender": signer, "c": c}
+				}
+			}
+		case k < 26:
+			// a Top-N request by a non-governance owner, or creating a Top-N consumer directly
+			if len(cons) > 0 && d.chance(0.5) {
+				c := d.pick(cons)
+				signer = d.owner(c)
+				if signer == "gov" || len(signer) > 3 {
+					continue
+				}
+				a = map[string]any{"a": "UpdateConsumer", "sender": signer, "c": c, "shaping": map[string]any{"topN": 60}}
+			} else {
+				signer = "u1"
+				d.chainNo++
+				a = map[string]any{"a": "CreateConsumer", "sender": signer, "chain": fmt.Sprintf("cons%d-1", d.chainNo), "shaping": map[string]any{"topN": 70}}
+			}
+		case k < 27:
+			// governance-only messages sent by a user
+			signer = "u1"
+			if d.chance(0.5) {
+				a = map[string]any{"a": "UpdateParams", "authority": "u1", "M": 1}
+			} else {
+				a = map[string]any{"a": "ChangeRewardDenoms", "authority": "u1", "add": []string{"evil"}}
+			}
+		default:
+			// a new provider validator, sometimes with a consensus key that is in use on a consumer
+			if d.nextVal > d.W.Cfg.NumVals+4 {
+				continue
+			}
+			v := fmt.Sprintf("v%d", d.nextVal)
+			d.nextVal++
+			signer = "op:" + v
+			key := fmt.Sprintf("pk%d", d.nextVal)
+			if d.chance(0.4) {
+				key = fmt.Sprintf("k%d", 1+d.R.Intn(d.W.Cfg.NumExtraKeys))
+			}
+			a = map[string]any{"a": "CreateValidator", "v": v, "key": key, "amt": []int64{1000000, 1500000, 2000000}[d.R.Intn(3)]}
 		}
 		if a == nil || used[signer] {
 			continue
@@ -268,7 +359,7 @@ func (d *Driver) acksFor(c string, forProvider bool) int {
 }
 
 func (d *Driver) dt() int64 {
-	return []int64{5, 5, 5, 30, 60, 300, 600, 1800, 3600}[d.R.Intn(9)]
+	return []int64{5, 5, 5, 30, 60, 300, 600, 1200}[d.R.Intn(8)]
 }
 
 func (d *Driver) absentOn(chain string, m map[string]int) []string {
@@ -283,9 +374,29 @@ func (d *Driver) absentOn(chain string, m map[string]int) []string {
 	return out
 }
 
+// keepalive refreshes the light clients of every started consumer when they have not been updated for a while
+// (a real relayer does this continuously); expiry itself is exercised by a dedicated, rare step.
+func (d *Driver) keepalive() {
+	w := d.W
+	now := d.nowSecs()
+	for _, c := range sortedKeys(d.started) {
+		ch := w.Chains[c]
+		if ch == nil || ch.Halted || d.expired[c] {
+			continue
+		}
+		if now-d.sinceUpd[c] < 2400 {
+			continue
+		}
+		w.Block(c, 5, nil, map[string]any{"a": "UpdateClient"})
+		w.Block("p", 5, d.absentOn("p", d.downP), map[string]any{"a": "UpdateClient", "c": c})
+		d.sinceUpd[c] = d.nowSecs()
+	}
+}
+
 // Step performs one random step.
 func (d *Driver) Step() {
 	w := d.W
+	d.keepalive()
 	started := sortedKeys(d.started)
 	k := d.R.Intn(100)
 	switch {
@@ -297,15 +408,30 @@ func (d *Driver) Step() {
 				continue
 			}
 			if n := d.pendingTo(c, false); n > 0 && d.chance(0.6) {
-				txs = append(txs, map[string]any{"a": "RelayTo", "c": c, "n": 1 + d.R.Intn(n)})
+				k := 1 + d.R.Intn(n)
+				if w.providerLive() <= 4 {
+					k = 1
+				}
+				txs = append(txs, map[string]any{"a": "RelayTo", "c": c, "n": k})
 			}
 			if n := d.acksFor(c, true); n > 0 && d.chance(0.6) {
 				txs = append(txs, map[string]any{"a": "AckTo", "c": c, "n": 1 + d.R.Intn(n)})
 			}
+			if d.pendingTo(c, true) > 0 && d.chance(0.3) {
+				txs = append(txs, map[string]any{"a": "TimeoutTo", "c": c})
+			}
 		}
 		if d.chance(0.04) {
 			keys := sortedKeys(w.P.Engine)
-			d.downP[d.pick(keys)] = 3
+			down := 0
+			for _, n := range d.downP {
+				if n > 0 {
+					down++
+				}
+			}
+			if len(keys) > 0 && w.providerLive()-down > 2 {
+				d.downP[d.pick(keys)] = 3
+			}
 		}
 		w.Block("p", d.dt(), d.absentOn("p", d.downP), txs...)
 	case k < 85:
@@ -327,6 +453,39 @@ func (d *Driver) Step() {
 		}
 		if d.chance(0.06) && len(ch.Engine) > 1 {
 			d.downC[c][d.pick(sortedKeys(ch.Engine))] = 3
+		}
+		if d.linked[c] && d.chance(0.10) {
+			// a compromised consumer reports whatever it likes
+			keys := []string{}
+			for i := 1; i <= d.W.Cfg.NumExtraKeys; i++ {
+				keys = append(keys, fmt.Sprintf("k%d", i))
+			}
+			for i := 1; i <= d.W.Cfg.NumVals; i++ {
+				keys = append(keys, fmt.Sprintf("pk%d", i))
+			}
+			key := d.pick(keys)
+			if d.chance(0.5) && len(ch.Engine) > 0 {
+				key = d.pick(sortedKeys(ch.Engine))
+			}
+			vsc := int64(0)
+			switch d.R.Intn(4) {
+			case 0:
+				vsc = 0
+			case 1:
+				vsc = 9999 // never issued
+			default:
+				vsc = int64(w.P.PApp.ProviderKeeper.GetValidatorSetUpdateId(w.P.GetContext())) - int64(d.R.Intn(3))
+				if vsc < 0 {
+					vsc = 0
+				}
+			}
+			inf := "downtime"
+			if d.chance(0.15) {
+				inf = "doublesign"
+			}
+			if err := w.ForgeSlash(c, key, vsc, inf, 1+int64(d.R.Intn(5))); err != nil {
+				d.logf("forge: %v", err)
+			}
 		}
 		w.Block(c, d.dt(), d.absentOn(c, d.downC[c]), txs...)
 	case k < 93:
@@ -387,12 +546,38 @@ func (d *Driver) Step() {
 			w.GovExec(map[string]any{"a": "ChangeRewardDenoms", "add": []string{d.pick([]string{"photon", "stake", "ibc/ABC"})}})
 		}
 	default:
-		// let time pass on every chain (keeps light clients alive through the relays of later steps)
-		w.Block("p", 1800, d.absentOn("p", d.downP))
-		for _, c := range started {
-			if w.Chains[c] != nil && !w.Chains[c].Halted {
-				w.Block(c, 5, nil)
+		// let time pass on every chain, keeping the light clients alive; sometimes a whole unbonding period
+		rounds := 1
+		if d.chance(0.35) {
+			rounds = int(w.Cfg.Unbonding/1800) + 1
+		}
+		if d.chance(0.9) {
+			for _, c := range d.consumerNames() {
+				if d.phase(c) == "launched" && !d.started[c] {
+					func() {
+						defer func() {
+							if r := recover(); r != nil {
+								d.logf("start %s failed: %v", c, r)
+							}
+						}()
+						w.StartConsumer(c)
+						d.started[c] = true
+					}()
+				}
 			}
+			started = sortedKeys(d.started)
+		}
+		if len(started) > 0 && d.chance(0.04) {
+			d.expired[d.pick(started)] = true // a relayer outage: this consumer's clients are no longer refreshed
+		}
+		for r := 0; r < rounds && !w.P.Halted; r++ {
+			w.Block("p", 1800, d.absentOn("p", d.downP))
+			for _, c := range started {
+				if w.Chains[c] != nil && !w.Chains[c].Halted {
+					w.Block(c, 5, nil)
+				}
+			}
+			d.keepalive()
 		}
 	}
 }
